@@ -46,6 +46,10 @@ CHECKS = {
    "bounded-exhaustive enumeration over the exported type registries x parameter grid and over the differ universe states, each pushed through MarshalHCL/EvalHCL of the real codecs and compared by differ, formatted types, own structural comparison and byte fixpoint",
    "For the MySQL, PostgreSQL and SQLite codecs: every registered type spec x parameter grid (size, precision/scale, time precision, unsigned, enum/set values, PostgreSQL arrays) must be a FormatType/ParseType fixpoint and survive MarshalHCL -> EvalHCLBytes as a column type with empty diff both ways and identical bytes on re-marshal; every state of the differ universe (base, +1 edit or equivalence; thorough +2 edits) must round-trip with empty diff both ways, equal element lists / attribute sets / formatted types by our own comparison, and byte-identical re-marshal.",
    "Types are enumerated through the registry's own spec list; values outside the parameter grid are not claimed."),
+ "C16": ("exploration",
+   "bounded-exhaustive enumeration of change sets x qualifier x plan mode through the real MySQL/PostgreSQL planners; every forward and reverse statement tokenised by an independent quoted-identifier scanner",
+   "For the MySQL and PostgreSQL planners: change sets from the real differ (every single edit of the differ universe, thorough every compatible pair; create-all, drop-all) and hand-built schema-level / two-schema change sets x qualifier {not requested, empty, custom} x 4 plan modes: with the empty qualifier no Cmd or reverse statement may mention the marker-named schema or create/drop/alter a schema, schema-level and cross-schema change sets must be rejected; with a custom qualifier every table, enum-type and (PostgreSQL) index reference must carry exactly that qualifier.",
+   "Connection-less DefaultPlan planners; identifier recognition relies on the universe's names being collision-free."),
  "C17": ("exploration",
    "bounded-exhaustive enumeration of plans; reversible ones are executed up and down on a real SQLite engine and the catalogue compared; down files of all formatters compared with the reverse statements",
    "The C01 pair space x 2 indent settings: Reversible must hold exactly when every schema-changing statement has a reverse, a table rebuild is never reversible, the down part written by each of the 5 third-party formatters equals the reverse statements in reverse change order (per changeset for Liquibase), and for every reversible plan up followed by down on the real engine restores the catalogue and leaves no atlas diff in either direction.",
